@@ -26,6 +26,7 @@ type Kit struct {
 	Hide       []string `json:"hide,omitempty"` // repository files hidden from the build (overlay deletion)
 	Variant    string            `json:"variant,omitempty"`
 	Retag      map[string]string `json:"retag,omitempty"` // repo file -> build constraint replacing its //go:build line (mechanical copy made at check time)
+	Deterministic bool `json:"deterministic,omitempty"` // model-based search without timing dependence: also run by the thorough tier on the unchanged tree
 }
 
 type kitFile struct {
@@ -147,6 +148,41 @@ func runReplayCmd(cmd string) (string, int) {
 }
 
 func cmdSelftest(args []string) int { return 0 }
+
+type exploreResult struct {
+	Kit    string `json:"kit"`
+	Cmd    string `json:"cmd"`
+	Passed bool   `json:"passed"`
+	Out    string `json:"-"`
+}
+
+// runExploration (thorough tier): beyond the proofs, run the deterministic witness searches whose obligations belong to
+// this property on the unchanged tree, with the long budget.  A witness is a failing input on the real code.
+func runExploration(o checkOpts, id string, obls []*OblResult) []exploreResult {
+	var out []exploreResult
+	for _, k := range loadKits(o.verif) {
+		if !k.Deterministic || k.BoundedFor != "" {
+			continue
+		}
+		re, err := regexp.Compile(k.Match)
+		if err != nil {
+			continue
+		}
+		hit := false
+		for _, ob := range obls {
+			if re.MatchString(ob.Name) {
+				hit = true
+				break
+			}
+		}
+		if !hit {
+			continue
+		}
+		res := runKit(o, id, k)
+		out = append(out, exploreResult{Kit: k.Run, Cmd: res.cmd, Passed: !res.reproduced, Out: res.out})
+	}
+	return out
+}
 
 type boundedResult struct {
 	Name   string `json:"name"`
